@@ -50,19 +50,71 @@ Definition client_backoff (max_retry_interval_ms max_retry_count : N) : backoff 
   bo_new 200000000 (max_retry_interval_ms * 1000000) 2 max_retry_count.
 
 (* ---- correspondence glue ---- *)
-Definition put_adv (a : adv) : list N :=
-  match a with ANone => [0] | ASome d => [1; d] | APanic => [2] end.
+Definition put_big (d : N) : list N := [d mod 4294967296; (d / 4294967296) mod 4294967296; d / 18446744073709551616].
+Definition get_big (a b c : N) : N := a + b * 4294967296 + c * 18446744073709551616.
 
-(* ops: 0 = advance, 1 = reset *)
+Definition put_adv (a : adv) : list N :=
+  match a with ANone => [0] | ASome d => 1 :: put_big d | APanic => [2] end.
+
+(* ops: 0 = advance, 1 = reset; a panic ends the run *)
 Fixpoint run_ops (b : backoff) (ops : list N) : list N :=
   match ops with
   | [] => []
-  | 0 :: r => let '(b', a) := advance b in put_adv a ++ run_ops b' r
+  | 0 :: r => let '(b', a) := advance b in
+              match a with APanic => put_adv a | _ => put_adv a ++ run_ops b' r end
   | _ :: r => run_ops (reset b) r
   end.
 
 Definition run_backoff (c : list N) : list N :=
   match c with
-  | initial :: max :: mult :: max_count :: ops => run_ops (bo_new initial max mult max_count) ops
+  | i0 :: i1 :: i2 :: m0 :: m1 :: m2 :: mult :: max_count :: ops =>
+      run_ops (bo_new (get_big i0 i1 i2) (get_big m0 m1 m2) mult max_count) ops
+  | _ => MALFORMED
+  end.
+
+(* the scripted fake server of the end-to-end harness: behaviour kinds per accepted connection *)
+Definition attempt_of_kind (kind : N) : option attempt :=
+  match kind with
+  | 1 => Some (AtFail false true)     (* closed during the handshake *)
+  | 2 => Some (AtFail true true)      (* connection lost abruptly *)
+  | 3 => Some (AtFail true true)      (* orderly close by the server *)
+  | 4 => Some (AtFail false false)    (* HTTP error answer *)
+  | 5 => Some (AtFail false true)     (* handshake timeout *)
+  | 6 => Some (AtFail true false)     (* protocol violation by the server *)
+  | 7 => Some (AtFail true true)      (* stream request timeout / loss *)
+  | _ => None                          (* healthy *)
+  end.
+
+(* (attempts up to the first healthy one, number of local connections opened meanwhile) *)
+Fixpoint parse_script (c : list N) : list (attempt * N) :=
+  match c with
+  | kind :: _ :: opens :: r =>
+      match attempt_of_kind kind with
+      | Some a => (a, opens) :: parse_script r
+      | None => []
+      end
+  | _ => []
+  end.
+
+Definition final_code (f : final) : list N :=
+  match f with FOk => [0; 0] | FFatal k => [1; k + 1] | FGiveUp k => [2; k + 1] | FRunning => [3; 0] | FPanic => [4; 0] end.
+
+Definition run_retry (c : list N) : list N :=
+  match c with
+  | max_ms :: max_count :: _ :: _ :: r =>
+      let sc := parse_script r in
+      let '(ds, f) := retry_loop (client_backoff max_ms max_count) (map fst sc) 0 in
+      let executed := match f with FRunning => length sc | FFatal k | FGiveUp k => (N.to_nat k + 1)%nat | _ => 0%nat end in
+      let nloc := fold_right N.add 0 (map snd (firstn executed sc)) in
+      let fc := match f with FRunning => [3; N.of_nat (length sc) + 1] | _ => final_code f end in
+      N.of_nat (length ds) :: map (fun d => d / 1000000) ds ++ fc ++
+      nloc :: repeat (match f with FRunning => 1 | _ => 0 end) (N.to_nat nloc)
+  | _ => MALFORMED
+  end.
+
+Definition run_client (c : list N) : list N :=
+  match c with
+  | 1 :: r => run_backoff r
+  | 2 :: r => run_retry r
   | _ => MALFORMED
   end.
